@@ -1530,6 +1530,9 @@ class Hypergraph:
         self.add_node_to_edge = frozen
         self.remove_node_from_edge = frozen
         self.clear = frozen
+        self.clear_edges = frozen
+        self.double_edge_swap = frozen
+        self.random_edge_shuffle = frozen
         self.frozen = True
 
     @property
